@@ -6,6 +6,7 @@ import (
 	"crypto/elliptic"
 	"crypto/rand"
 	"crypto/rsa"
+	"math/big"
 	"time"
 
 	enc "github.com/named-data/ndnd/std/encoding"
@@ -77,14 +78,18 @@ func VerifC12_ShippedSignersAndValidators() {
 		var v []byte
 		if verifSymbolic() {
 			s = &rsaSigner{timer: basic_engine.Timer{}, keyLocatorName: keyName, keyLen: 128, forCert: forCert, certExpireTime: time.Hour}
-			v = verifBytesN("sigvalue", 8)
-			pub = &rsa.PublicKey{}
+			// a well-formed 1024-bit public key object and a signature of the matching length; the arithmetic is behind the stub
+			words := make([]big.Word, 16)
+			words[15] = 1 << 63
+			words[0] = 1
+			pub = &rsa.PublicKey{N: new(big.Int).SetBits(words), E: 65537}
+			v = verifBytesN("sigvalue", 128)
 		} else {
 			k, _ := rsa.GenerateKey(rand.Reader, 1024)
 			s = NewRsaSigner(forCert, false, time.Hour, k, keyName)
 			pub = &k.PublicKey
 			v, _ = s.ComputeSigValue(covered)
-			_ = verifBytesN("sigvalue", 8)
+			_ = verifBytesN("sigvalue", 128)
 		}
 		cfg, err := s.SigInfo()
 		verifAssert(err == nil && cfg != nil, "C12/shipped/siginfo")
